@@ -1218,3 +1218,43 @@ def main(ctx):
                 bounds=dict(seeds=seeds, n=ns, generators=["RandomState(seed)", "default_rng(seed)", "default (count/range only)"],
                             cap_centres=cap_c, cap_radii=cap_r, boxes=boxes, sampler_tables=len(samp_units),
                             cholesky_matrices=[MATRICES[3][0], MATRICES[7][0], MATRICES[8][0]]))
+
+    # ------------------------------------------------------------ call sequences
+    # sequences of calls of the random-position and sampler functions in one process, every call with its own
+    # freshly seeded generator (mc/worlds.py call_sequences): a result must depend on its arguments and its
+    # generator only - not on tables, scratch arrays or a default generator left behind by an earlier call
+    from mc.worlds import call_sequences
+    # the library imports these lazily on first use: import them here once, so that the forked children of the
+    # call-sequence world (which start from this process image) do not pay for it again and again
+    import scipy.integrate       # noqa: F401
+    import scipy.interpolate     # noqa: F401
+    import scipy.optimize        # noqa: F401
+
+    def seq_pool():
+        return dict(cov=np.array([[1.0, 0.5], [0.5, 2.0]]), cov2=np.array([[4.0, -1.0], [-1.0, 1.0]]),
+                    gx=np.array([0.0, 1.0, 3.0, 7.0]), gp=np.array([1.0, 1.0, 2.0, 0.5]))
+
+    SEQ_CALLS = [("randcap", 37.0, 45.0, 1.0, False, 1), ("randcap", 12.0, 89.95, 1.0, True, 1), ("randcap", 37.0, 45.0, 100.0, True, 2),
+                 ("randsphere", None, None, 1), ("randsphere", (10.0, 35.0), (-25.0, 15.0), 1),
+                 ("indices", 5, 3, True, 1), ("indices", 5, 5, False, 2),
+                 ("chol", "cov", 3, 1), ("chol", "cov2", 3, 1), ("gen", "gx", "gp", 1), ("gen", "gx", "gp", 2),
+                 ("genseed", "gx", "gp", 5)]
+
+    def seq_run(c, pool):
+        if c[0] == "randcap":
+            r = coords.randcap(4, c[1], c[2], c[3], get_radius=c[4], rng=np.random.RandomState(c[5]))
+            return [np.asarray(v) for v in r]
+        if c[0] == "randsphere":
+            r = coords.randsphere(4, ra_range=None if c[1] is None else list(c[1]),
+                                  dec_range=None if c[2] is None else list(c[2]), rng=np.random.RandomState(c[3]))
+            return [np.asarray(v) for v in r]
+        if c[0] == "indices":
+            return [np.asarray(erandom.random_indices(c[1], c[2], unique=c[3], rng=np.random.RandomState(c[4])))]
+        if c[0] == "chol":
+            return [np.asarray(erandom.cholesky_sample(pool[c[1]], c[2], dist=np.random.RandomState(c[3]).randn))]
+        if c[0] == "genseed":
+            return [np.asarray(erandom.Generator(pool[c[2]], x=pool[c[1]], method="accum", seed=c[3]).sample(3))]
+        g = erandom.Generator(pool[c[2]], x=pool[c[1]], method="accum", rng=np.random.RandomState(c[3]))
+        return [np.asarray(g.sample(3))]
+
+    call_sequences(ctx, "call-sequences", seq_pool, SEQ_CALLS, seq_run, lambda: [coords, erandom], depth=3, nodedup_depth=3)
